@@ -54,6 +54,10 @@ pub fn run_range_stream(rep: &mut Report, p: &Params, inputs: &[In], allow_inval
         if i == perturb_at[1] {
             prefix_ops.push(inst.perturb(1).to_json());
         }
+        // ... and a clone_from into a used instance while the window is still filling (a third of the streams)
+        if i == 2 + len % 5 && len % 3 == 1 {
+            prefix_ops.push(inst.perturb(2).to_json());
+        }
         let r = rm.push(x);
         let out = match inst.feed(x) {
             Ok(o) => o,
